@@ -133,13 +133,18 @@ def check(repo: Repo, rep: Report) -> None:
                "the absolute form does not schedule the remaining delay with the same action and state")
     for mname in ("schedule", "schedule_relative"):
         m = repo.fn(NT, f"NewThreadScheduler.{mname}")
-        mk = [s for s in sites(m) if isinstance(s.node, ast.Assign) and isinstance(s.node.value, ast.Call) and call_name(s.node.value) == "EventLoopScheduler"]
-        ok = bool(mk) and {k.arg: u(k.value) for k in mk[0].node.value.keywords} == {"thread_factory": "self.thread_factory", "exit_if_empty": "True"}
+        from ..ctx import returned_expr as _rex
+        from ..rules import inline_locals as _inl
+        # `return <loop>.<mname>(...)`: the receiver -- a local, a helper's result or the constructor call itself -- is a fresh exiting loop
+        fw = [s for s in sites(m) if isinstance(s.node, ast.Return) and isinstance(s.node.value, ast.Call) and isinstance(s.node.value.func, ast.Attribute)
+              and s.node.value.func.attr == mname]
+        recv = _rex(m, _inl(m, fw[0].node.value.func.value)) if fw else None
+        recv = _rex(m, recv) if recv is not None else None
+        ok = isinstance(recv, ast.Call) and call_name(recv) == "EventLoopScheduler" \
+            and {k.arg: u(k.value) for k in recv.keywords} == {"thread_factory": "self.thread_factory", "exit_if_empty": "True"}
         rep.ob("D1-delegation", m, f"{mname}: fresh EventLoopScheduler(thread_factory, exit_if_empty=True)", ok,
                "the action is not given its own exiting event loop on the configured thread factory")
-        sv = u(mk[0].node.targets[0]) if mk else "scheduler"
-        ok = any(isinstance(s.node, ast.Return) and isinstance(s.node.value, ast.Call) and dotted(s.node.value.func) == f"{sv}.{mname}"
-                 and [u(a) for a in s.node.value.args] == m.params[1:] for s in sites(m))
+        ok = bool(fw) and [u(a) for a in fw[0].node.value.args] == m.params[1:]
         rep.ob("D1-delegation", m, f"{mname}: forwards {m.params[1:]} unchanged", ok, "due time / action / state are not forwarded unchanged to the event loop")
     tp = repo.fn(TP, "ThreadPoolScheduler")
     ok = any(u(b) == "NewThreadScheduler" for b in tp.node.bases) and not any(c.is_func and c.name.startswith("schedule") for c in tp.children)
